@@ -221,6 +221,7 @@ def pcKey : Pc → String
   | .lookup t => "l" ++ t
   | .preparing t => "p" ++ t
   | .loopHead e => "h" ++ e.text ++ "/" ++ e.id
+  | .picking e => "k" ++ e.text ++ "/" ++ e.id
   | .removing e v => "r" ++ e.text ++ "/" ++ e.id ++ "/" ++ v
   | .inserting e => "n" ++ e.text ++ "/" ++ e.id
   | .done e m => "d" ++ e.text ++ "/" ++ e.id ++ (if m then "+" else "-")
@@ -243,7 +244,7 @@ def successors (cap : Nat) (prep : String → Except Nat String) (m : Nat) (st :
   ((List.range m).map (fun k =>
     match st.pc k with
     | .done _ _ | .failed _ | .idle => []
-    | .loopHead _ => (List.range (max st.cache.length 1)).map (fun c => step cap prep st k c)
+    | .picking _ => (List.range (max st.cache.length 1)).map (fun c => step cap prep st k c)
     | _ => [step cap prep st k 0])).flatten
 
 /-- every terminal state reachable by some interleaving -/
@@ -341,14 +342,14 @@ def csStep (st : CsState) (idx : Nat) (op tok : String) : Except String CsState 
             ⟨cache0, fun k => match qTexts[k]? with | some tx => .lookup (csTexts.getD tx "") | none => .idle, cache0.length⟩
           let callsOf (f : ScyllaVerif.PreparedCacheConc.State) (tx : Nat) : Nat :=
             ((List.range m).filter (fun k => qTexts[k]? == some tx && (match f.pc k with
-              | .done _ true | .failed _ | .loopHead _ | .removing _ _ | .inserting _ | .preparing _ => true | _ => false))).length
+              | .done _ true | .failed _ | .loopHead _ | .picking _ | .removing _ _ | .inserting _ | .preparing _ => true | _ => false))).length
           let framesFine (f : ScyllaVerif.PreparedCacheConc.State) : Bool := (List.range 5).all (fun tx => match pa.lookup tx with
             | some answers => callsOf f tx > 0 && framesOk st.conns (callsOf f tx) answers
             | none => callsOf f tx == 0)
           let toCache (f : ScyllaVerif.PreparedCacheConc.State) : Cache :=
             f.cache.map (fun e => (e.text, (⟨e.id, e.text, Cfg.default, 5000, st.u⟩ : PStmt)))
           if res == "ok" then
-            let finals := Conc.explore st.cap prepOf m (8 * m + 8) [s0] []
+            let finals := Conc.explore st.cap prepOf m (12 * m + 12) [s0] []
             finals.filterMap (fun f =>
               -- the batch handed on: prepared statements as they are, every unprepared one replaced by ITS caller's handle
               let handles : List (Option PStmt) := (List.range m).map (fun k => match f.pc k with
@@ -361,10 +362,55 @@ def csStep (st : CsState) (idx : Nat) (op tok : String) : Except String CsState 
           else
             -- a preparation failed: the call ends with that error at some point of some interleaving
             if !errLabels.contains res || frame != "-" then [] else
-            ((Conc.exploreAll st.cap prepOf m (8 * m + 8) [s0] [s0]).filter (fun f =>
+            ((Conc.exploreAll st.cap prepOf m (12 * m + 12) [s0] [s0]).filter (fun f =>
               (List.range m).any (fun k => match f.pc k with | .failed _ => true | _ => false))).map toCache)).flatten
         let next := dedupC results
         if next.isEmpty then .error s!"not producible by the model from any of its {st.cands.length} cache(s)" else .ok { st with cands := next }
+    | _ => .error "bad token"
+  | 's' :: body =>
+    -- Session::prepare_batch: the MODEL's `sessionPrepareBatch` with `prep` = the outcome of `prepareNongeneric` on the
+    -- per-node answers printed by the harness (every outcome some connection order gives, per text)
+    match tok.splitOn "~" with
+    | [opE, paE, stE, res] =>
+      if opE != op then .error "op echo" else
+      match parsePa ((paE.splitOn "pa=").getLastD "") with
+      | none => .error "unparsable pa"
+      | some pa =>
+        let stmts : List BStmt := (List.range (body.length / 2)).filterMap (fun j =>
+          match body[2 * j]?, digitAt body (2 * j + 1) with
+          | some 'q', some t => some (.query ⟨csTexts.getD t "", ⟨some ([1, 4, 6].getD (j % 3) 0), none, none, false⟩, 100 + j⟩)
+          | some 'p', some t => some (.prepared ⟨csTexts.getD t "" ++ "#0", csTexts.getD t "", Cfg.default, 5000, false⟩)
+          | _, _ => none)
+        let b : Batch := ⟨1, ⟨some 4, none, some (Int.ofNat (2000 + idx)), false⟩, stmts⟩
+        let asked := sessionPrepareAsked stmts
+        let askedNos := (asked.map textNo).eraseDups
+        -- nothing but the unprepared statements' texts is prepared
+        if !(pa.all (fun (t, _) => askedNos.contains t)) then .error "a text was prepared that the model does not ask about" else
+        -- per text: the outcomes the model allows
+        let perText : List (Nat × List (Except PErr String)) := askedNos.map (fun t => (t, match pa.lookup t with
+          | some answers => prepareOutcomes st.conns answers
+          | none => []))
+        -- every assignment of one outcome per text
+        let assigns : List (List (Nat × Except PErr String)) := perText.foldl (fun acc (t, os) =>
+          (acc.map (fun a => os.map (fun o => a ++ [(t, o)]))).flatten) [[]]
+        let shown (b' : Batch) : String := ",".intercalate (b'.stmts.map (fun s => match s with
+          | .prepared p => s!"{showIdHex p.id}/{p.page}/{optS toString p.cfg.cl}"
+          | .query _ => "unprepared"))
+        let okFrames : Bool := askedNos.all (fun t => match pa.lookup t with
+          | some answers => framesOk st.conns ((asked.filter (fun x => textNo x == t)).length) answers
+          | none => false)
+        let good := assigns.any (fun a =>
+          let prep : String → Except PErr String := fun text => match a.lookup (textNo text) with
+            | some o => o | none => .error .noConnections
+          match sessionPrepareBatch prep b with
+          | .ok b' => res == "ok" && stE == "st=" ++ shown b' && okFrames
+          -- a failed call drops its other preparations: their frames may or may not have been sent
+          | .error es => stE == "st=-" && (es.map perrLabel).contains res)
+        -- a failure is also possible while the frames of the failing text are the only ones seen
+        let goodPartial := res != "ok" && stE == "st=-" &&
+          (pa.any (fun (_, answers) => ((prepareOutcomes st.conns answers).any (fun o => match o with
+            | .error pe => perrLabel pe == res | .ok _ => false))))
+        if good || goodPartial then .ok st else .error "not producible by the model's sessionPrepareBatch"
     | _ => .error "bad token"
   | 'c' :: body =>
     match tok.splitOn "~" with
@@ -384,7 +430,7 @@ def csStep (st : CsState) (idx : Nat) (op tok : String) : Except String CsState 
           let cache0 : ScyllaVerif.PreparedCacheConc.Cache := c.zipIdx.map (fun ((t, p), i) => ⟨t, p.id, i⟩)
           let s0 : ScyllaVerif.PreparedCacheConc.State :=
             ⟨cache0, fun k => match texts[k]? with | some t => .lookup (csTexts.getD t "") | none => .idle, cache0.length⟩
-          let finals := Conc.explore st.cap prepOf m (8 * m + 8) [s0] []
+          let finals := Conc.explore st.cap prepOf m (12 * m + 12) [s0] []
           (finals.filterMap (fun f =>
             -- the handles the callers got
             let idsOk := (List.range m).all (fun k => match f.pc k with
@@ -421,7 +467,7 @@ def runCs (ws : List String) (impl : String) : String :=
       | ['V', a] => a.isDigit && (a.toNat - 48) < n
       | ['x', a, 'c', k] => a.isDigit && (a.toNat - 48) < 5 && k.isDigit && (k.toNat - 48) < 3
       | 'c' :: body => 1 ≤ body.length && body.length ≤ 3 && body.all (fun d => d.isDigit && (d.toNat - 48) < 5)
-      | 'b' :: body => body.length % 2 == 0 && !body.isEmpty && body.length ≤ 12 &&
+      | 'b' :: body | 's' :: body => body.length % 2 == 0 && !body.isEmpty && body.length ≤ 12 &&
           (List.range (body.length / 2)).all (fun j => (body[2 * j]? == some 'q' || body[2 * j]? == some 'p') &&
             (match body[2 * j + 1]? with | some d => d.isDigit && (d.toNat - 48) < 5 | none => false))
       | _ => false
@@ -488,6 +534,7 @@ def dedup (ss : List St) : List St :=
 
 def pcKeyC : Pc → String
   | .loopHead e => "h" ++ e.text ++ "/" ++ toString e.cell
+  | .picking e => "k" ++ e.text ++ "/" ++ toString e.cell
   | .removing e v => "r" ++ e.text ++ "/" ++ toString e.cell ++ "/" ++ v
   | .inserting e => "n" ++ e.text ++ "/" ++ toString e.cell
   | .done e m => "d" ++ e.text ++ "/" ++ toString e.cell ++ (if m then "+" else "-")
@@ -523,7 +570,7 @@ def adds (mu cap : Nat) (srv : List Nat) (s : St) (texts : List Nat) : List (St 
   let m := texts.length
   let next0 := (s.cells.map (·.1)).foldl (fun a c => max a (c + 1)) 0
   let s0 : State := ⟨s.cache, fun k => match texts[k]? with | some t => .lookup (cmTexts.getD t "") | none => .idle, next0⟩
-  (exploreC cap prepOk m (8 * m + 8) [s0] []).filterMap (fun f =>
+  (exploreC cap prepOk m (12 * m + 12) [s0] []).filterMap (fun f =>
     let hs : List (Option (Nat × Nat × Bool)) := (List.range m).map (fun k => match f.pc k with
       | .done e missed => some (textNo e.text, e.cell, missed) | _ => none)
     if hs.any (·.isNone) then none else
